@@ -100,11 +100,14 @@ func (w *Worker) RunPath(fn *ssa.Function, item PathItem) (out Outcome, forks []
 
 	finish := func(kind, id, msg string, m smt.Model) {
 		out.Kind, out.ID, out.Msg = kind, id, msg
+		if m == nil && (kind == "violation" || kind == "panic") {
+			m = w.classify(i, fn.Name(), id, &out)
+		}
 		if m == nil {
 			m = i.safeModel()
 		}
 		out.Inputs = i.decodeInputs(m)
-		out.Notes = r.notes
+		out.Notes = i.resolveNotes(m)
 		out.Covers = sortedKeys(r.covers)
 		out.Branches = r.nbranch
 		out.Steps = r.steps
@@ -181,4 +184,64 @@ func (i *interpreter) panicString(v value) string {
 		return fmt.Sprintf("%v", describeValue(it.v))
 	}
 	return toString(v)
+}
+
+// classify decides whether a violating path has a model outside every
+// known-finding region (a new violation) or only inside one (known finding).
+func (w *Worker) classify(i *interpreter, harness, id string, out *Outcome) (m smt.Model) {
+	regs := w.Regions[harness+"|"+id]
+	if len(regs) == 0 {
+		return nil
+	}
+	defer func() {
+		if p := recover(); p != nil {
+			out.Msg += fmt.Sprintf(" [region evaluation failed: %v]", p)
+			m = nil
+		}
+	}()
+	F := i.F
+	var rts []*smt.Term
+	for _, r := range regs {
+		rts = append(rts, i.regionTerm(r.expr))
+	}
+	var outside []*smt.Term
+	for _, t := range rts {
+		outside = append(outside, F.Not(t))
+	}
+	pc := append([]*smt.Term{}, i.run.pc...)
+	res, mo := w.check(append(pc, outside...))
+	switch res {
+	case smt.Sat:
+		return mo // new violation, model outside all regions
+	case smt.Unknown:
+		out.Msg += " [solver unknown on region query]"
+		return nil
+	}
+	for k, t := range rts {
+		res, mk := w.check(append(append([]*smt.Term{}, i.run.pc...), t))
+		if res == smt.Sat {
+			out.Known = regs[k].Name
+			return mk
+		}
+	}
+	out.Msg += " [no region model]"
+	return nil
+}
+
+func (i *interpreter) resolveNotes(m smt.Model) map[string]any {
+	out := map[string]any{}
+	memo := map[int]uint64{}
+	for k, v := range i.run.notes {
+		switch x := v.(type) {
+		case symStr:
+			out[k] = i.L.evalStr(x.Str, m, memo)
+		case symInt:
+			out[k] = int64(i.F.EvalMemo(x.t, m, memo))
+		case symBool:
+			out[k] = i.F.EvalMemo(x.t, m, memo) == 1
+		default:
+			out[k] = x
+		}
+	}
+	return out
 }
